@@ -14,6 +14,7 @@
 package fasthttp
 
 import (
+	"bytes"
 	"context"
 	"crypto/tls"
 	"fmt"
@@ -112,6 +113,11 @@ func (trans *Transport) Transport(ctx context.Context, request []byte) (response
 	case fasthttp.StatusOK:
 		if !trans.DisableHTTPHeader {
 			clientContext.Items().Set("httpResponseHeaders", getResponseHeader(&resp.Header))
+		}
+		if bytes.EqualFold(resp.Header.Peek("Content-Encoding"), []byte("gzip")) {
+			// the transport asked for it (SetCompression): hand back what the service
+			// produced, not its compressed form
+			return resp.BodyGunzip()
 		}
 		body := resp.Body()
 		response := make([]byte, len(body))
